@@ -21,6 +21,7 @@ func (srv *Srv) NewConn(c net.Conn) {
 	conn.reqs = make(map[uint16]*SrvReq)
 	conn.reqout = make(chan *SrvReq, srv.Maxpend)
 	conn.done = make(chan bool)
+	conn.gone = make(chan bool)
 	conn.rchan = make(chan *Fcall, 64)
 
 	srv.Lock()
@@ -45,6 +46,7 @@ func (srv *Srv) NewConn(c net.Conn) {
 
 func (conn *Conn) close() {
 	verifPoint("close.enter", conn)
+	close(conn.gone)
 	conn.done <- true
 	verifPoint("close.stopped", conn)
 	conn.Srv.Lock()
